@@ -136,7 +136,11 @@ def render_hlog_header(rng, fields):
     lines.append(start)
     if not start.rstrip().endswith('{'):
         lines.append('{')
+    split = rng.randrange(1, len(fields)) if len(fields) >= 2 and rng.random() < .15 else None
     for k, f in enumerate(fields):
+        if k == split:
+            # the table declared in two blocks (base counters, then those of an optional feature): one table
+            lines += ['};', '', '#if OPTIONAL_COUNTERS', start] + ([] if start.rstrip().endswith('{') else ['{'])
         # white space as C and the decoder's pattern see it: blanks, tabs, and the rarer kinds (form feed, vertical
         # tab, separators) that some text functions take for line ends - a line of the file ends at \n only
         sp = rng.choice([' ', '  ', '', ' ', '\t', '\x0c', '\x0b ', ' \x1c', '\x1d\x1e', '\x85', '\u2028 '])
